@@ -14,7 +14,7 @@ import sys
 _hits = {}
 _dir = None
 _root = None
-TOOL = 3            # sys.monitoring tool id (0..5; 0-2 are conventionally debugger/coverage/profiler)
+TOOL = 4            # sys.monitoring tool id (0-2 are conventionally debugger/coverage/profiler; 3 is the C13 work meter)
 
 
 _new = 0
